@@ -309,6 +309,13 @@ def origin(e):
     return name.replace('\\', '/').rsplit('/', 1)[-1]
 
 
+def origin_function(e):
+    tb = e.__traceback__; name = ''
+    while tb is not None:
+        name = tb.tb_frame.f_code.co_name; tb = tb.tb_next
+    return name
+
+
 EXPRESSION_FILES = ('expression_v1.py', 'expression_v2.py')
 
 
@@ -723,8 +730,15 @@ class V1World:
                 return ('degenerate', 'raised by a called function or by the evaluation, outside the expression modules: %s' % type(e).__name__)
             if (isinstance(e, TypeError) and 'unexpected keyword argument' in msg) or (isinstance(e, ValueError) and 'expected an array with shape' in msg):
                 return ('degenerate', 'the harness-defined v1 function is called with generates/consumes it does not implement')
-            return ('exc', type(e).__name__, msg[:80])
+            return ('exc', type(e).__name__, msg[:80], origin_function(e))
         return ('value', val)
+
+
+def v1_signature(r):
+    """root cause = exception type + function that raised it (the two first-found causes keep their short names)"""
+    if (r[1], r[3]) in (('KeyError', '_eval_ast'), ('IndexError', '_apply_indices')):
+        return 'v1-wrong-exception:' + r[1]
+    return 'v1-wrong-exception:%s:%s' % (r[1], r[3])
 
 
 def v1_stream(c, rng, sctx, quick):
@@ -764,7 +778,7 @@ def v1_stream(c, rng, sctx, quick):
             replay = dict(stream='v1-namespace', string=s, target=target, how=how, real=[str(x)[:300] for x in r], tag=tag, ast=repr(t))
             if r[0] == 'exc' and r[1] not in ('ZeroDivisionError', 'FloatingPointError'):
                 findings += 1
-                c.failing_input('v1-wrong-exception:' + r[1], 'v1: a string is rejected with %s instead of ExpressionSyntaxError' % r[1], replay)
+                c.failing_input(v1_signature(r), 'v1: a string is rejected with %s (raised in %s) instead of ExpressionSyntaxError' % (r[1], r[3]), replay)
             elif spec[0] == 'value' and r[0] == 'value':
                 want = G.aligned(spec[1], target)
                 if not close(r[1], want, G.TRACK['max']):
@@ -786,7 +800,7 @@ def v1_stream(c, rng, sctx, quick):
                     c.case(('v1', e), nontrivial=bool(e.strip())); c.count('v1:edit'); c.count('v1-real:' + r[0])
                     if r[0] == 'exc' and r[1] not in ('ZeroDivisionError', 'FloatingPointError'):
                         findings += 1
-                        c.failing_input('v1-wrong-exception:' + r[1], 'v1: a string is rejected with %s instead of ExpressionSyntaxError' % r[1],
+                        c.failing_input(v1_signature(r), 'v1: a string is rejected with %s (raised in %s) instead of ExpressionSyntaxError' % (r[1], r[3]),
                                         dict(stream='v1-namespace', string=e, target=target, how='eval', real=[str(x)[:300] for x in r], tag='edit-' + kind))
     c.obligation('sem:v1-namespace-vs-reading', findings == 0, 'exploration', '%d strings' % n)
     c.log('stream 4 (v1 namespace, exploration): %d strings, %d failing inputs' % (n, findings))
